@@ -7,6 +7,7 @@
 #include "mimalloc/prim.h"
 #include <errno.h>
 void* __builtin_assume_aligned(const void* p, size_t a, ...) { return (void*)p; }
+static inline mi_threadid_t verif_tid(void) { return 0x1000; }      /* used when the driver passes -DMI_PRIM_THREAD_ID=verif_tid */
 #include "seq_atomics.h"
 #include "init.c"
 
@@ -100,6 +101,53 @@ void h_td_collect(void) {
   WITNESS("end");
 }
 #endif
+#ifdef HARNESS_h_thread_heap_done
+/* C09 (thread exit): _mi_thread_heap_done on a thread with two extra heaps besides its backing heap (list order concrete: ORDER).
+   The default heap is switched away first; every non-backing heap is deleted exactly once (so its pages migrate to the backing
+   heap: C10.heap_delete) BEFORE the backing heap abandons its pages; the backing heap itself is never deleted; the thread
+   metadata is released exactly once and last; the main thread neither abandons nor frees.  Heap deletion, abandonment and the
+   release of the metadata are recording stubs (decided by C10.heap_delete, C09.collect_abandon, C11.td_free). */
+static mi_thread_data_t TDX; static mi_heap_t X1, X2;
+static int step, n_del, n_aband, n_tdfree, n_statsdone, del_step[2], aband_step, tdfree_step, default_reset_step; static mi_heap_t* deleted[2];
+static bool is_main;
+void _mi_prim_thread_associate_default_heap(mi_heap_t* heap) { if (default_reset_step == 0) default_reset_step = ++step; }
+void mi_heap_delete(mi_heap_t* h) {
+  CHECK(h == &X1 || h == &X2, "C09: only non-backing heaps are deleted at thread exit");
+  if (n_del < 2) { deleted[n_del] = h; del_step[n_del] = ++step; } n_del++;
+  /* as the real mi_heap_free: unlink from the thread's heap list */
+  mi_heap_t* prev = NULL; mi_heap_t* c = h->tld->heaps; for (int k = 0; k < 4 && c != h && c != NULL; k++) { prev = c; c = c->next; }
+  if (c == h) { if (prev != NULL) prev->next = h->next; else h->tld->heaps = h->next; }
+}
+void _mi_heap_collect_abandon(mi_heap_t* h) { n_aband++; aband_step = ++step; CHECK(n_del == 2, "C09: the backing heap abandons its pages only after every other heap of the thread was merged into it"); CHECK(h->tld->heaps == h && h->next == NULL, "the backing heap is the only heap left"); }
+void _mi_stats_done(mi_stats_t* stats) { n_statsdone++; }
+void stub_thread_data_free(mi_thread_data_t* td) { n_tdfree++; tdfree_step = ++step; CHECK(td == &TDX || (is_main), "the metadata block that holds the backing heap"); }
+void h_thread_heap_done(void) {
+  is_main = nd_bool(); _mi_heap_main.thread_id = is_main ? verif_tid() : verif_tid() + 1;      /* _mi_is_main_thread() compares against the calling thread's id */
+  mi_heap_t* bk = is_main ? &_mi_heap_main : &TDX.heap; mi_tld_t* tld = is_main ? &tld_main : &TDX.tld;
+  _mi_memcpy_aligned(&X1, &_mi_heap_empty, sizeof(mi_heap_t)); _mi_memcpy_aligned(&X2, &_mi_heap_empty, sizeof(mi_heap_t));
+  if (!is_main) _mi_memcpy_aligned(bk, &_mi_heap_empty, sizeof(mi_heap_t));
+  bk->tld = tld; X1.tld = tld; X2.tld = tld; tld->heap_backing = bk; bk->cookie = X1.cookie = X2.cookie = 1;
+#if ORDER == 0
+  tld->heaps = &X1; X1.next = &X2; X2.next = bk; bk->next = NULL;
+#elif ORDER == 1
+  tld->heaps = &X1; X1.next = bk; bk->next = &X2; X2.next = NULL;
+#else
+  tld->heaps = bk; bk->next = &X2; X2.next = &X1; X1.next = NULL;
+#endif
+  mi_heap_t* start = (nd_bool() ? &X1 : bk);          /* the thread's current default heap */
+  _mi_heap_default = start;
+  bool r = _mi_thread_heap_done(start);
+  CHECK(!r, "an initialised heap is torn down");
+  CHECK(default_reset_step == 1, "C09: the default heap is switched away before anything is torn down");
+  CHECK(_mi_heap_default == (is_main ? &_mi_heap_main : (mi_heap_t*)&_mi_heap_empty), "the exiting thread no longer allocates from the dying heap");
+  CHECK(n_del == 2 && deleted[0] != deleted[1], "C09: every non-backing heap is deleted exactly once");
+  CHECK(tld->heaps == bk && bk->next == NULL, "only the backing heap remains on the list");
+  CHECK(n_statsdone == 1, "statistics merged once");
+  if (is_main) { CHECK(n_aband == 0 && n_tdfree == 0, "the main thread keeps its heap and metadata"); WITNESS("main"); }
+  else { CHECK(n_aband == 1 && n_tdfree == 1 && aband_step > del_step[1] && tdfree_step > aband_step && tdfree_step == step, "C09/C11: pages are abandoned once, then the thread metadata is released once, as the last step"); WITNESS("worker"); }
+}
+#endif
+
 #ifdef VERIF_REPLAY
 int main(void) { VERIF_ENTRY(); return 0; }
 #endif
